@@ -1,3 +1,477 @@
--- stub: replaced by the property author
+import SupervisorModel.Props.C08
+import SupervisorModel.Lemmas.Strip
+/-
+  C07 — child output reaches the right log, complete and in order (dispatcher level).
+
+  Model: `Sv.OutDisp` / `Sv.Strip`; reference for capture sections: `Sv.CapSpec.refSplit`;
+  reference for "minus ANSI escape sequences": `Sv.Strip.stripRef` (Lemmas/Strip.lean).
+  The capture-mode refinement itself (`feed_refines`, `run_complete`) is in Props/C08.lean.
+
+  Not provable at this level (simulated kernel / real processes, see the harness): which
+  descriptor numbers the kernel hands out, pipe buffering, the main loop's routing of
+  readable descriptors to dispatchers.
+-/
+set_option linter.unusedSimpArgs false
+set_option linter.unusedVariables false
 namespace Sv.Props.C07
+open Sv Sv.OutDisp Sv.Gen.OutDisp Sv.CapSpec Sv.Strip Sv.Props.C08
+
+/-! ### complete, in order, exactly once — independently of the fragmentation -/
+
+/-- `no_capture_concat`: capture off, strip off: after any reads the log holds exactly their
+    concatenation (nothing is ever held back) -/
+theorem no_capture_concat (c : Cfg) (hc : c.capMax = 0) (hst : c.strip = false) (hl : c.hasLog = true)
+    (chunks : List Bytes) :
+    (feedAll c chunks init).err = none ∧ loggedOf (feedAll c chunks init).outs = chunks.flatten := by
+  obtain ⟨h1, h2, _, _⟩ := capture_off_is_plain c hc hst chunks
+  exact ⟨h1, by rw [h2, hl, if_pos rfl]⟩
+
+/-- `complete_at_eof` (fix F3): capture on; once the end-of-file read has happened the log holds
+    every byte outside capture sections, whatever the fragmentation was -/
+theorem complete_at_eof (c : Cfg) (hc : 0 < c.capMax) (hst : c.strip = false) (hl : c.hasLog = true)
+    (hb : c.btok ≠ []) (he : c.etok ≠ []) (chunks : List Bytes) (hne : ∀ x ∈ chunks, x ≠ []) :
+    loggedOf (run c chunks).outs = (refSplit c false chunks.flatten).plain ∧ (run c chunks).p.buf = [] := by
+  refine ⟨?_, (run_complete c hc hst hb he chunks hne).2.1⟩
+  rw [captured_not_logged c hc hst hb he chunks hne, hl, if_pos rfl]
+
+/-! everything a step does is appended to what was observed before (the log is append-only) -/
+
+/-- `s'` extends the observations of `s` -/
+def Ext (s s' : S) : Prop := ∃ delta, s'.outs = s.outs ++ delta
+theorem Ext.refl (s : S) : Ext s s := ⟨[], by simp⟩
+theorem Ext.trans {a b c : S} (h1 : Ext a b) (h2 : Ext b c) : Ext a c := by
+  obtain ⟨d1, h1⟩ := h1; obtain ⟨d2, h2⟩ := h2
+  exact ⟨d1 ++ d2, by rw [h2, h1, List.append_assoc]⟩
+theorem ext_emit (o : Out) (s : S) : Ext s (emit o s) := by
+  unfold emit guard; split
+  · exact Ext.refl _
+  · exact ⟨[o], rfl⟩
+theorem ext_setP (f : D → D) (s : S) : Ext s (setP f s) := by
+  unfold setP guard; split <;> exact Ext.refl _
+theorem ext_raise (e : Err) (s : S) : Ext s (raise e s) := by
+  unfold raise guard; split <;> exact Ext.refl _
+
+theorem ext_ite {s a b : S} {p : Prop} [Decidable p] (ha : Ext s a) (hb : Ext s b) : Ext s (if p then a else b) := by
+  split <;> assumption
+
+theorem logData_outs (c : Cfg) (d : Bytes) (s : S) : Ext s (logData c d s) := by
+  simp only [logData, guard]
+  refine ext_ite (Ext.refl _) (ext_ite ?_ (Ext.refl _))
+  have hs1 := fun (p : Prop) (q : Prop) (_ : Decidable p) (_ : Decidable q) (f : D → D) (o : Out) =>
+    (ext_ite (p := p) (ext_ite (p := q) (ext_setP f s) (ext_emit o s)) (Ext.refl s))
+  refine ext_ite (hs1 _ _ _ _ _ _) (ext_ite (ext_ite ((hs1 _ _ _ _ _ _).trans (ext_emit _ _)) (hs1 _ _ _ _ _ _))
+    (ext_ite ((hs1 _ _ _ _ _ _).trans (ext_emit _ _)) (hs1 _ _ _ _ _ _)))
+
+theorem toggle_outs (c : Cfg) (s : S) : Ext s (toggle c s) := by
+  simp only [toggle, guard]
+  exact ext_ite (Ext.refl _) (ext_ite (ext_ite (ext_setP _ _)
+    (((ext_setP _ _).trans (ext_emit _ _)).trans (ext_setP _ _))) (ext_setP _ _))
+
+theorem close_outs (s : S) : Ext s (close s) := by
+  simp only [close, guard]
+  exact ext_ite (Ext.refl _) (ext_ite (Ext.refl _) ((ext_emit _ _).trans (ext_setP _ _)))
+
+theorem performAll_outs (c : Cfg) (acts : List Act) : ∀ s : S, Ext s (performAll c acts s) := by
+  induction acts with
+  | nil => intro s; exact Ext.refl _
+  | cons a r ih =>
+    intro s
+    have h1 : Ext s (perform c s a) := by
+      cases a with
+      | data d => exact logData_outs c d s
+      | toggle => exact toggle_outs c s
+    exact h1.trans (by simpa [performAll] using ih (perform c s a))
+
+theorem recordOutput_outs (c : Cfg) (eof : Bool) (s : S) : Ext s (recordOutput c eof s) := by
+  simp only [recordOutput, guard]
+  exact ext_ite (Ext.refl _) (ext_ite (ext_raise _ _) ((ext_setP _ _).trans (performAll_outs c _ _)))
+
+theorem readEvent_outs (c : Cfg) (x : Bytes) (s : S) : Ext s (readEvent c x s) := by
+  simp only [readEvent, guard]
+  exact ext_ite (Ext.refl _) (ext_ite (((ext_setP _ _).trans (recordOutput_outs c _ _)).trans (close_outs _))
+    ((ext_setP _ _).trans (recordOutput_outs c _ _)))
+
+/-- `order_and_once`, first half: reads only ever append to what has been logged and emitted —
+    nothing already in the log is rewritten, reordered or repeated by later reads -/
+theorem log_append_only (c : Cfg) (c1 c2 : List Bytes) (s : S) :
+    Ext (feedAll c c1 s) (feedAll c (c1 ++ c2) s) := by
+  have hfa : feedAll c (c1 ++ c2) s = feedAll c c2 (feedAll c c1 s) := by simp [feedAll, List.foldl_append]
+  rw [hfa]
+  have key : ∀ (l : List Bytes) (s1 : S), Ext s1 (feedAll c l s1) := by
+    intro l
+    induction l with
+    | nil => intro s1; exact Ext.refl _
+    | cons x r ih => intro s1; exact (readEvent_outs c x s1).trans (by simpa [feedAll] using ih (readEvent c x s1))
+  exact key c2 _
+
+/-- `order_and_once`, second half: at the end the log is the reference's plain bytes — each of
+    them exactly once and in stream order (a list equality), for every fragmentation -/
+theorem order_and_once (c : Cfg) (hst : c.strip = false) (hl : c.hasLog = true)
+    (hb : c.btok ≠ []) (he : c.etok ≠ []) (chunks : List Bytes) (hne : ∀ x ∈ chunks, x ≠ []) :
+    (c.capMax = 0 → loggedOf (run c chunks).outs = chunks.flatten) ∧
+    (0 < c.capMax → loggedOf (run c chunks).outs = (refSplit c false chunks.flatten).plain) := by
+  constructor
+  · intro hc
+    have := (capture_off_is_plain c hc hst (chunks ++ [[]])).2.1
+    simpa [run, feedAll, List.foldl_append, hl] using this
+  · intro hc
+    exact (complete_at_eof c hc hst hl hb he chunks hne).1
+
+/-! ### strip_ansi -/
+
+/-- `_log` outside capture mode, for either setting of strip_ansi -/
+theorem logData_plain' (c : Cfg) (d : Bytes) (s : S) (he : s.err = none) (hm : s.p.mode = false) :
+    logData c d s = { s with outs := s.outs ++ (if d = [] then [] else
+      (if c.hasLog then [Out.log (if c.strip then stripEscapes d else d)] else []) ++
+      (if evOn c then [Out.plog c.isStdout (if c.strip then stripEscapes d else d)] else [])) } := by
+  obtain ⟨⟨mode, buf, cap, closed⟩, outs, err⟩ := s
+  obtain ⟨capMax, hasLog, strip, isStdout, outEv, errEv, btok, etok⟩ := c
+  simp only at he hm
+  subst he hm
+  cases d with
+  | nil => simp [logData, guard, log_g0]
+  | cons x xs =>
+    simp only [logData, guard, log_g0, log_g1, log_g2, log_g5, log_g6, log_g7, log_g8, toggle_g0, evOn,
+      emit, setP]
+    cases hasLog <;> cases isStdout <;> cases outEv <;> cases errEv <;> cases strip <;> simp
+
+/-- one read with capture off: the read's bytes, stripped on their own when strip_ansi is set -/
+theorem read_capture_off' (c : Cfg) (hc : c.capMax = 0) (x : Bytes) (s : S)
+    (he : s.err = none) (hm : s.p.mode = false) (hb : s.p.buf = []) :
+    (readEvent c x s).err = none ∧ (readEvent c x s).p.mode = false ∧ (readEvent c x s).p.buf = [] ∧
+    loggedOf (readEvent c x s).outs = loggedOf s.outs ++ (if c.hasLog then (if c.strip then stripEscapes x else x) else []) ∧
+    plogOf (readEvent c x s).outs = plogOf s.outs ++ (if evOn c then (if c.strip then stripEscapes x else x) else []) := by
+  obtain ⟨⟨mode, buf, cap, closed⟩, outs, err⟩ := s
+  simp only at he hm hb
+  subst he hm hb
+  have hscan : scanGo c x.isEmpty (([] ++ x : Bytes).length + 1) false ([] ++ x) = ⟨[.data x], false, [], false⟩ := by
+    unfold scanGo
+    simp [record_output_g0, record_output_a0, record_output_a1, hc]
+  have hlog := logData_plain' c x ⟨⟨false, [], cap, closed⟩, outs, none⟩ rfl rfl
+  have hread : readEvent c x ⟨⟨false, [], cap, closed⟩, outs, none⟩ =
+      if x.isEmpty then close (logData c x ⟨⟨false, [], cap, closed⟩, outs, none⟩)
+      else logData c x ⟨⟨false, [], cap, closed⟩, outs, none⟩ := by
+    simp only [readEvent, guard, hre_a1, hre_c0_0, hre_g0, setP, Bool.not_not, recordOutput,
+      Option.isSome_none, Bool.false_eq_true, if_false, hscan, performAll, List.foldl_cons, List.foldl_nil, perform]
+  rw [hread, hlog]
+  cases x with
+  | nil =>
+    have : stripEscapes [] = [] := by decide
+    simp only [List.isEmpty_nil, if_true, close, guard, emit, setP, Option.isSome_none, Bool.false_eq_true, if_false]
+    cases closed <;> cases c.hasLog <;> cases evOn c <;> cases c.strip <;>
+      simp [loggedOf_append, plogOf_append, loggedOf, plogOf, this]
+  | cons a r =>
+    simp only [List.isEmpty_cons, Bool.false_eq_true, if_false]
+    cases c.hasLog <;> cases evOn c <;>
+      simp [loggedOf_append, plogOf_append, loggedOf, plogOf]
+
+/-- exact description of what strip_ansi does today: every read is stripped on its own -/
+theorem strip_per_read (c : Cfg) (hc : c.capMax = 0) (hs : c.strip = true) (hl : c.hasLog = true) (chunks : List Bytes) :
+    loggedOf (feedAll c chunks init).outs = (chunks.map (stripRef true)).flatten := by
+  suffices h : ∀ (s : S), s.err = none → s.p.mode = false → s.p.buf = [] →
+      (feedAll c chunks s).err = none ∧
+      loggedOf (feedAll c chunks s).outs = loggedOf s.outs ++ (chunks.map (stripRef true)).flatten by
+    simpa [init, loggedOf] using (h init rfl rfl rfl).2
+  induction chunks with
+  | nil => intro s he _ _; simp [feedAll, he]
+  | cons x r ih =>
+    intro s he hm hb
+    obtain ⟨e1, m1, b1, l1, _⟩ := read_capture_off' c hc x s he hm hb
+    obtain ⟨e2, l2⟩ := ih _ e1 m1 b1
+    simp only [feedAll, List.foldl_cons] at e2 l2 ⊢
+    refine ⟨e2, ?_⟩
+    rw [l2, l1, hl, hs, stripEscapes_eq_ref]; simp
+
+/-- `strip_unfragmented`: when the kernel delivers the stream in one read, the log holds the
+    stream minus its ANSI escape sequences -/
+theorem strip_unfragmented (c : Cfg) (hc : c.capMax = 0) (hs : c.strip = true) (hl : c.hasLog = true) (stream : Bytes) :
+    loggedOf (feedAll c [stream] init).outs = stripRef true stream := by
+  simpa using strip_per_read c hc hs hl [stream]
+
+/-- a read boundary does no harm if it falls while showing and not between ESC and `[` -/
+def CleanCut (a b : Bytes) : Prop :=
+  stripRef true (a ++ b) = stripRef true a ++ stripRef true b
+
+/-- `strip_ansi_partial`.  Full statement (FALSE today, F12): for every fragmentation
+    `loggedOf (feedAll c chunks init).outs = stripRef true chunks.flatten`.  Proved here under the
+    hypothesis that no read boundary cuts an escape sequence (every prefix/next-read pair is a
+    `CleanCut`); the excluded case is exhibited by `strip_fragmented_counterexample`. -/
+theorem strip_ansi_partial (c : Cfg) (hc : c.capMax = 0) (hs : c.strip = true) (hl : c.hasLog = true)
+    (chunks : List Bytes)
+    (hclean : ∀ (pre : List Bytes) (x : Bytes) (post : List Bytes), chunks = pre ++ x :: post → CleanCut pre.flatten x) :
+    loggedOf (feedAll c chunks init).outs = stripRef true chunks.flatten := by
+  rw [strip_per_read c hc hs hl]
+  suffices h : ∀ (l : List Bytes) (pre : List Bytes), chunks = pre ++ l →
+      stripRef true (pre.flatten ++ l.flatten) = stripRef true pre.flatten ++ (l.map (stripRef true)).flatten by
+    have := h chunks [] rfl
+    simpa [stripRef] using this.symm
+  intro l
+  induction l with
+  | nil => intro pre _; simp
+  | cons x r ih =>
+    intro pre hp
+    have h1 := hclean pre x r hp
+    have h2 := ih (pre ++ [x]) (by simp [hp])
+    simp only [List.flatten_append, List.flatten_cons, List.flatten_nil, List.append_nil, List.map_cons] at h2 ⊢
+    unfold CleanCut at h1
+    rw [← List.append_assoc, h2, h1, List.append_assoc]
+
+/-- F12 (open): `ESC [ 3` + `1 m h e l l o` in two reads logs `1mhello`; in one read `hello` -/
+theorem strip_fragmented_counterexample :
+    let c : Cfg := { capMax := 0, hasLog := true, strip := true, isStdout := true, outEv := false, errEv := false,
+                     btok := stdout_BEGIN, etok := stdout_END }
+    loggedOf (feedAll c [[27, 91, 51], [49, 109, 104, 101, 108, 108, 111]] init).outs = [49, 109, 104, 101, 108, 108, 111] ∧
+    stripRef true ([[27, 91, 51], [49, 109, 104, 101, 108, 108, 111]].flatten) = [104, 101, 108, 108, 111] ∧
+    ¬ CleanCut [27, 91, 51] [49, 109, 104, 101, 108, 108, 111] := by
+  refine ⟨by decide, by decide, ?_⟩
+  unfold CleanCut; decide
+
+-- non-vacuity of `strip_ansi_partial`: a fragmentation with clean cuts, and the theorem's conclusion on it
+example : CleanCut [104, 105, 27, 91, 51, 49, 109] [120] ∧ CleanCut [104, 105] [27, 91, 109, 120] := by
+  unfold CleanCut; decide
+example : stripEscapes [104, 105, 27, 91, 51, 49, 109, 120] = [104, 105, 120] := by decide
+
+/-! ### PROCESS_LOG events carry the same bytes, chunk for chunk, with the dispatcher's channel -/
+
+/-- the writes to the log file, one entry per write -/
+def logChunks : List Out → List Bytes
+  | [] => []
+  | .log d :: r => d :: logChunks r
+  | _ :: r => logChunks r
+
+/-- the PROCESS_LOG events: (is the STDOUT class, data) -/
+def plogChunks : List Out → List (Bool × Bytes)
+  | [] => []
+  | .plog ch d :: r => (ch, d) :: plogChunks r
+  | _ :: r => plogChunks r
+
+theorem logChunks_append (a b : List Out) : logChunks (a ++ b) = logChunks a ++ logChunks b := by
+  induction a with
+  | nil => rfl
+  | cons x r ih => cases x <;> simp [logChunks, ih]
+theorem plogChunks_append (a b : List Out) : plogChunks (a ++ b) = plogChunks a ++ plogChunks b := by
+  induction a with
+  | nil => rfl
+  | cons x r ih => cases x <;> simp [plogChunks, ih]
+
+/-- every log write has its PROCESS_LOG event with the same data and this dispatcher's channel, in the same order -/
+def Match (c : Cfg) (outs : List Out) : Prop := plogChunks outs = (logChunks outs).map fun d => (c.isStdout, d)
+
+/-- invariant: capture mode is never entered without a capture logger; log writes and events match -/
+def PInv (c : Cfg) (s : S) : Prop := (c.capMax = 0 → s.p.mode = false) ∧ Match c s.outs
+
+theorem pinv_logData (c : Cfg) (hl : c.hasLog = true) (hev : evOn c = true) (d : Bytes) (s : S) (h : PInv c s) :
+    PInv c (logData c d s) := by
+  obtain ⟨⟨mode, buf, cap, closed⟩, outs, err⟩ := s
+  obtain ⟨capMax, hasLog, strip, isStdout, outEv, errEv, btok, etok⟩ := c
+  obtain ⟨h1, h2⟩ := h
+  simp only [PInv, Match, evOn] at *
+  subst hl
+  cases err with
+  | some e => simpa [logData, guard] using ⟨h1, h2⟩
+  | none =>
+    cases d with
+    | nil => simpa [logData, guard, log_g0] using ⟨h1, h2⟩
+    | cons x xs =>
+      simp only [logData, guard, log_g0, log_g1, log_g2, log_g5, log_g6, log_g7, log_g8, toggle_g0, emit, setP]
+      cases mode
+      · cases isStdout <;> simp_all [plogChunks_append, logChunks_append, plogChunks, logChunks]
+      · have hcm : capMax ≠ 0 := fun h0 => by simpa using h1 h0
+        simp [hcm, h2]
+
+theorem pinv_toggle (c : Cfg) (hc : c.capMax ≠ 0) (s : S) (h : PInv c s) : PInv c (toggle c s) := by
+  obtain ⟨p, outs, err⟩ := s
+  obtain ⟨h1, h2⟩ := h
+  refine ⟨fun h0 => absurd h0 hc, ?_⟩
+  simp only [Match] at *
+  cases err with
+  | some e => simpa [toggle, guard] using h2
+  | none =>
+    simp only [toggle, guard, emit, setP, Option.isSome_none, Bool.false_eq_true, if_false]
+    repeat' split
+    all_goals simp_all [plogChunks_append, logChunks_append, plogChunks, logChunks]
+
+theorem scan_capture_off (c : Cfg) (hc : c.capMax = 0) (eof : Bool) (n : Nat) (m : Bool) (buf : Bytes) :
+    (scanGo c eof (n + 1) m buf).acts = [.data buf] := by
+  unfold scanGo
+  simp [record_output_g0, record_output_a0, hc]
+
+theorem pinv_performAll (c : Cfg) (hl : c.hasLog = true) (hev : evOn c = true) (hc : c.capMax ≠ 0) (acts : List Act) :
+    ∀ s, PInv c s → PInv c (performAll c acts s) := by
+  induction acts with
+  | nil => intro s h; exact h
+  | cons a r ih =>
+    intro s h
+    have : PInv c (perform c s a) := by
+      cases a with
+      | data d => exact pinv_logData c hl hev d s h
+      | toggle => exact pinv_toggle c hc s h
+    simpa [performAll] using ih _ this
+
+theorem pinv_of_outs_mode {c : Cfg} {s s' : S} (h : PInv c s) (ho : s'.outs = s.outs) (hm : s'.p.mode = s.p.mode) : PInv c s' := by
+  unfold PInv at *; rw [ho, hm]; exact h
+
+theorem pinv_readEvent (c : Cfg) (hl : c.hasLog = true) (hev : evOn c = true) (x : Bytes) (s : S) (h : PInv c s) :
+    PInv c (readEvent c x s) := by
+  have hclose : ∀ s : S, PInv c s → PInv c (close s) := by
+    intro s h
+    obtain ⟨p, outs, err⟩ := s
+    cases err with
+    | some e => simpa [close, guard] using h
+    | none =>
+      simp only [close, guard, emit, setP, Option.isSome_none, Bool.false_eq_true, if_false]
+      split
+      · exact h
+      · obtain ⟨h1, h2⟩ := h
+        exact ⟨h1, by simp_all [Match, plogChunks_append, logChunks_append, plogChunks, logChunks]⟩
+  have hro : ∀ (eof : Bool) (s : S), PInv c s → PInv c (recordOutput c eof s) := by
+    intro eof s h
+    simp only [recordOutput, guard]
+    split
+    · exact h
+    · split
+      · exact pinv_of_outs_mode h (by simp only [raise, guard]; split <;> rfl) (by simp only [raise, guard]; split <;> rfl)
+      · have hs1 : PInv c (setP (fun p => { p with buf := (scanGo c eof (s.p.buf.length + 1) s.p.mode s.p.buf).buf }) s) :=
+          pinv_of_outs_mode h (by simp only [setP, guard]; split <;> rfl) (by simp only [setP, guard]; split <;> rfl)
+        by_cases hc : c.capMax = 0
+        · rw [scan_capture_off c hc]
+          exact pinv_logData c hl hev _ _ hs1
+        · exact pinv_performAll c hl hev hc _ _ hs1
+  simp only [readEvent, guard]
+  split
+  · exact h
+  · have hs1 : PInv c (setP (fun p => { p with buf := hre_a1 p.buf x }) s) :=
+      pinv_of_outs_mode h (by simp only [setP, guard]; split <;> rfl) (by simp only [setP, guard]; split <;> rfl)
+    split
+    · exact hclose _ (hro _ _ hs1)
+    · exact hro _ _ hs1
+
+/-- `plog_events_match`: with a log file and PROCESS_LOG events enabled for the channel, for every
+    configuration (capture on or off, strip on or off) and every sequence of reads, the events
+    are — one for one, in order — the writes to the log file, each with this dispatcher's
+    channel class (the harness checks name and pid on the real event objects) -/
+theorem plog_events_match (c : Cfg) (hl : c.hasLog = true) (hev : evOn c = true) (chunks : List Bytes) :
+    plogChunks (feedAll c chunks init).outs = (logChunks (feedAll c chunks init).outs).map fun d => (c.isStdout, d) := by
+  suffices h : ∀ s, PInv c s → PInv c (feedAll c chunks s) from
+    (h init ⟨fun _ => rfl, by simp [Match, init, plogChunks, logChunks]⟩).2
+  induction chunks with
+  | nil => intro s h; exact h
+  | cons x r ih => intro s h; simpa [feedAll] using ih _ (pinv_readEvent c hl hev x s h)
+
+/-- and when events are disabled for the channel there are none -/
+theorem no_plog_when_disabled (c : Cfg) (hev : evOn c = false) (chunks : List Bytes) :
+    plogChunks (feedAll c chunks init).outs = [] := by
+  suffices h : ∀ (l : List Bytes) (s : S), plogChunks s.outs = [] → plogChunks (feedAll c l s).outs = [] from
+    h chunks init rfl
+  have hlog : ∀ (d : Bytes) (s : S), plogChunks s.outs = [] → plogChunks (logData c d s).outs = [] := by
+    intro d s h
+    obtain ⟨⟨mode, buf, cap, closed⟩, outs, err⟩ := s
+    obtain ⟨capMax, hasLog, strip, isStdout, outEv, errEv, btok, etok⟩ := c
+    simp only [evOn] at hev
+    cases err with
+    | some e => simpa [logData, guard] using h
+    | none =>
+      simp only [logData, guard, log_g0, log_g1, log_g2, log_g5, log_g6, log_g7, log_g8, toggle_g0, emit, setP]
+      cases hasLog <;> cases isStdout <;> cases outEv <;> cases errEv <;> cases mode <;>
+        simp_all [plogChunks_append, plogChunks] <;> (repeat' split) <;> simp_all [plogChunks_append, plogChunks]
+  have htog : ∀ (s : S), plogChunks s.outs = [] → plogChunks (toggle c s).outs = [] := by
+    intro s h
+    obtain ⟨p, outs, err⟩ := s
+    cases err with
+    | some e => simpa [toggle, guard] using h
+    | none =>
+      simp only [toggle, guard, emit, setP, Option.isSome_none, Bool.false_eq_true, if_false]
+      repeat' split
+      all_goals simp_all [plogChunks_append, plogChunks]
+  have hperf : ∀ (acts : List Act) (s : S), plogChunks s.outs = [] → plogChunks (performAll c acts s).outs = [] := by
+    intro acts
+    induction acts with
+    | nil => intro s h; exact h
+    | cons a r ih =>
+      intro s h
+      have : plogChunks (perform c s a).outs = [] := by
+        cases a with
+        | data d => exact hlog d s h
+        | toggle => exact htog s h
+      simpa [performAll] using ih _ this
+  have hread : ∀ (x : Bytes) (s : S), plogChunks s.outs = [] → plogChunks (readEvent c x s).outs = [] := by
+    intro x s h
+    obtain ⟨p, outs, err⟩ := s
+    cases err with
+    | some e => simpa [readEvent, guard] using h
+    | none =>
+      simp only [readEvent, guard, recordOutput, setP, Option.isSome_none, Bool.false_eq_true, if_false]
+      have h2 : ∀ s2 : S, plogChunks s2.outs = [] → plogChunks (close s2).outs = [] := by
+        intro s2 h2
+        obtain ⟨p2, outs2, err2⟩ := s2
+        cases err2 with
+        | some e => simpa [close, guard] using h2
+        | none =>
+          simp only [close, guard, emit, setP, Option.isSome_none, Bool.false_eq_true, if_false]
+          split <;> simp_all [plogChunks_append, plogChunks]
+      repeat' split
+      all_goals first
+        | (apply h2; first | (simp only [raise, guard]; split <;> exact h) | (apply hperf; exact h))
+        | (simp only [raise, guard]; split <;> exact h)
+        | (apply hperf; exact h)
+  intro l
+  induction l with
+  | nil => intro s h; exact h
+  | cons x r ih => intro s h; simpa [feedAll] using ih _ (hread x s h)
+
+/-! ### attribution at dispatcher level: a read on a descriptor reaches only that descriptor's dispatcher -/
+
+/-- the main loop's combined map: descriptor number ↦ (configuration, dispatcher state) -/
+abbrev Sys := List (Nat × Cfg × S)
+
+def sysLookup (fd : Nat) : Sys → Option (Cfg × S)
+  | [] => none
+  | (k, c, s) :: r => if k = fd then some (c, s) else sysLookup fd r
+
+/-- `combined_map[fd].handle_read_event()` with the kernel handing out `x` -/
+def sysRead (fd : Nat) (x : Bytes) : Sys → Sys
+  | [] => []
+  | (k, c, s) :: r => if k = fd then (k, c, readEvent c x s) :: r else (k, c, s) :: sysRead fd x r
+
+def sysRun (ops : List (Nat × Bytes)) (sys : Sys) : Sys := ops.foldl (fun sy op => sysRead op.1 op.2 sy) sys
+
+theorem sysLookup_sysRead (fd fd' : Nat) (x : Bytes) (sys : Sys) :
+    sysLookup fd (sysRead fd' x sys) =
+      if fd = fd' then (sysLookup fd sys).map (fun cs => (cs.1, readEvent cs.1 x cs.2)) else sysLookup fd sys := by
+  induction sys with
+  | nil => simp [sysRead, sysLookup]
+  | cons e r ih =>
+    obtain ⟨k, c, s⟩ := e
+    by_cases h1 : k = fd' <;> by_cases h2 : k = fd <;> by_cases h3 : fd = fd' <;>
+      simp_all [sysRead, sysLookup] <;> omega
+
+/-- `attribution` (dispatcher level): after any interleaving of reads on any descriptors, the
+    dispatcher registered for `fd` is in exactly the state it reaches by being fed, in order, the
+    reads addressed to `fd` — bytes read from another descriptor never reach its log, its capture
+    buffer or its events, and none of its own are lost to another dispatcher -/
+theorem attribution (ops : List (Nat × Bytes)) : ∀ (sys : Sys) (fd : Nat) (c : Cfg) (s : S),
+    sysLookup fd sys = some (c, s) →
+    sysLookup fd (sysRun ops sys) = some (c, feedAll c ((ops.filter fun op => op.1 = fd).map (·.2)) s) := by
+  induction ops with
+  | nil => intro sys fd c s h; simpa [sysRun, feedAll] using h
+  | cons op r ih =>
+    intro sys fd c s h
+    have h1 := sysLookup_sysRead fd op.1 op.2 sys
+    by_cases hfd : op.1 = fd
+    · have hfd' : fd = op.1 := hfd.symm
+      rw [if_pos hfd', h] at h1
+      have := ih _ fd c _ h1
+      simpa [sysRun, feedAll, hfd] using this
+    · have hfd' : ¬ fd = op.1 := fun e => hfd e.symm
+      rw [if_neg hfd', h] at h1
+      have := ih _ fd c s h1
+      simpa [sysRun, feedAll, hfd] using this
+
+-- non-vacuity: two dispatchers, interleaved reads
+example :
+    let c : Cfg := { capMax := 0, hasLog := true, strip := false, isStdout := true, outEv := false, errEv := false,
+                     btok := stdout_BEGIN, etok := stdout_END }
+    (sysLookup 5 (sysRun [(5, [1]), (7, [2]), (5, [3])] [(5, c, init), (7, c, init)])).map (fun cs => loggedOf cs.2.outs)
+      = some [1, 3] := by decide
+
 end Sv.Props.C07
